@@ -60,6 +60,46 @@ pub fn dispatch(c: &Case) -> PResult {
 }
 
 #[derive(Clone, Debug, Serialize, Deserialize)]
+pub struct RawCase {
+    pub codec: CodecId,
+    pub words: Vec<u64>,
+    pub count: u16,
+}
+
+/// sequences rebuilt from arbitrary word images: alternative bit patterns (amino codons, masked gap/pad)
+/// and arbitrary bytes in the text codec; the round trip is compared with the original itself
+fn raw_check<C: Cm>(case: &RawCase) -> PResult {
+    let n_ = C::ID.name();
+    let bits = C::ID.bits();
+    let raw: Vec<usize> = case.words.iter().map(|w| *w as usize).collect();
+    let cap = raw.len() * 64 / bits;
+    let count = scale16(case.count, cap);
+    let orig = match Seq::<C>::from_raw(count, &raw) {
+        Some(s) => s,
+        None => fail!("harness", "from_raw({count}, {} words) returned None", raw.len()),
+    };
+    let what = format!("{count}-symbol {n_} sequence rebuilt from an arbitrary word image");
+    let bytes = bincode::serialize(&orig).map_err(|e| Fail { site: format!("raw_bincode_ser/{n_}"), msg: e.to_string() })?;
+    let back: Seq<C> = bincode::deserialize(&bytes).map_err(|e| Fail { site: format!("raw_bincode_de/{n_}"), msg: format!("bincode::deserialize of a {what} failed: {e}") })?;
+    ensure!(back == orig && orig == back, format!("raw_bincode_eq/{n_}"), "bincode round trip of a {what}: {back} != {orig}");
+    check_same_hash(&back, &orig, &format!("raw_bincode_hash/{n_}"), &what)?;
+    let text = serde_json::to_string(&orig).map_err(|e| Fail { site: format!("raw_json_ser/{n_}"), msg: e.to_string() })?;
+    let jback: Seq<C> = match no_panic(&format!("raw_json_de_panic/{n_}"), "serde_json::from_str", || serde_json::from_str::<Seq<C>>(&text))? {
+        Ok(s) => s,
+        Err(e) => fail!(format!("raw_json_de/{n_}"), "serde_json::from_str of a serialized {what} failed: {e}"),
+    };
+    ensure!(jback == orig && orig == jback, format!("raw_json_eq/{n_}"), "JSON round trip of a {what} is not == the original (display {} vs {})", jback, orig);
+    ensure_eq!(jback.len(), orig.len(), format!("raw_json_len/{n_}"), "length after JSON round trip");
+    ensure_eq!(jback.to_string(), orig.to_string(), format!("raw_json_display/{n_}"), "display after JSON round trip");
+    check_same_hash(&jback, &orig, &format!("raw_json_hash/{n_}"), &what)?;
+    Ok(Pass::new(count > 0).class("raw_image"))
+}
+
+fn raw_dispatch(c: &RawCase) -> PResult {
+    with_codec!(c.codec, C, raw_check::<C>(c))
+}
+
+#[derive(Clone, Debug, Serialize, Deserialize)]
 pub struct KCase {
     pub codec: CodecId,
     pub st: St,
@@ -100,9 +140,13 @@ pub fn run(ctx: &mut Ctx) {
         ctx.forall(&format!("seqs/{}", id.name()), cases, gen::owned_spec_raw(id, max).prop_map(move |s| Case { codec: id, s }), dispatch);
     }
     for id in ALL_CODECS {
-        let th = ctx.thorough();
-        let cases = ctx.cases(5, 8);
-        ctx.forall(&format!("seqs_long/{}", id.name()), cases, gen::owned_spec_long(id, th).prop_map(move |s| Case { codec: id, s }), dispatch);
+        let lens = gen::long_lens(ctx.thorough());
+        ctx.forall_lens(&format!("seqs_long/{}", id.name()), &lens, |n| gen::owned_spec_n(id, n).prop_map(move |s| Case { codec: id, s }), dispatch);
+    }
+    for id in ALL_CODECS {
+        let cases = ctx.cases(400, 10);
+        let st = (proptest::collection::vec(prop_oneof![4 => any::<u64>(), 1 => Just(0u64), 1 => Just(u64::MAX)], 0..=6), any::<u16>()).prop_map(move |(words, count)| RawCase { codec: id, words, count });
+        ctx.forall(&format!("raw_images/{}", id.name()), cases, st, raw_dispatch);
     }
     let types = ktypes();
     for id in ALL_CODECS {
@@ -120,7 +164,7 @@ pub fn run(ctx: &mut Ctx) {
     // every k-mer type with all-max content (high bits set)
     let cells: Vec<KCase> = types.iter().map(|(id, st, k)| KCase { codec: *id, st: *st, k: *k, codes: vec![*id.model().codes().iter().max().unwrap(); *k] }).collect();
     ctx.each("all_kmer_types", cells, kcheck);
-    for c in ["empty", "offset_owned", "raw_bitvec", "withcap", "edited", "truncated", "rev2", "u128", "full_width", "above_u64"] {
+    for c in ["raw_image", "empty", "offset_owned", "raw_bitvec", "withcap", "edited", "truncated", "rev2", "u128", "full_width", "above_u64"] {
         ctx.require_class(c);
     }
 }
